@@ -36,12 +36,15 @@ func (s modSpec) String() string {
 const tableSlots = 3
 
 // read-only exports used as probes: name -> number of i32 arguments (slot indices).
+// Local: the export touches nothing but the instance's own functions and table/global cells
+// (it never runs code of another instance).
 var probeExports = []struct {
-	Name string
-	Arg  bool
+	Name  string
+	Arg   bool
+	Local bool
 }{
-	{"self", false}, {"calli", false}, {"callg", false}, {"gnull", false},
-	{"call0", true}, {"call1", true}, {"isnull0", true}, {"isnull1", true},
+	{"self", false, true}, {"calli", false, false}, {"callg", false, false}, {"gnull", false, true},
+	{"call0", true, false}, {"call1", true, false}, {"isnull0", true, true}, {"isnull1", true, true},
 }
 
 func buildModule(s modSpec) []byte {
